@@ -30,10 +30,10 @@ import (
 //
 // G17 (stale signatures) is discharged by (a)–(c); G19 (interrupted write) by (a)–(d) or, failing that, by an atomic replace.
 type staleHiding struct {
-	recvAt map[types.Object]types.Object // receiver of a method-value hook -> the variable the method value was taken from
-	hook     bool // some FindPackage hook exists
-	goFiles  bool // (a)-(c)
-	invalid  bool // (d)
+	recvAt   map[types.Object]types.Object // receiver of a method-value hook -> the variable the method value was taken from
+	hook     bool                          // some FindPackage hook exists
+	goFiles  bool                          // (a)-(c)
+	invalid  bool                          // (d)
 	findings []Finding
 	samples  []map[string]string
 	sites    int
